@@ -345,10 +345,10 @@ Definition q_close (tol a b : Q) : bool := Qle_bool (Qabs (a - b)) tol.
 (* coordinates (floats of the implementation, as exact dyadic rationals) within tol of the model,
    and coord2index(index2coord(i)) of the MODEL on the model's own exact coordinates = observed
    integer round trip of the implementation *)
-Definition chk_coord (bs : list base) (level : nat) (tol : Q) (probes : list (list Z))
-           (obs : list (list Q)) (obs_rt : list (list Z)) : bool :=
+Definition chk_coord (bs : list base) (level : nat) (tol : Q) (dprobes : list (list Z))
+           (obs : list (list Q)) (probes : list (list Z)) (obs_rt : list (list Z)) : bool :=
   let ax := grid_axes bs level in
-  list_eqb (list_eqb (q_close tol)) (map (index2coord ax) probes) obs
+  list_eqb (list_eqb (q_close tol)) (map (index2coord ax) dprobes) obs
   && zll_eqb (map (fun i => coord2index ax (index2coord ax i)) probes) obs_rt.
 
 (* coord2index on arbitrary (dyadic) coordinates away from rounding ties *)
